@@ -204,12 +204,18 @@ def kvn2dict(string):
         key = key.strip()
         value = value.strip()
 
-        if "[" in value:
-            # There is a unit field
-            value, sep, unit = value.partition("[")
-            attrib = {"units": unit.rstrip("]")}
-        else:
-            attrib = {}
+        attrib = {}
+        if value.endswith("]") and "[" in value:
+            # There is a unit field. Units only exist for numerical values,
+            # brackets in free text (e.g. user defined fields) are part of the text
+            number, sep, unit = value[:-1].rpartition("[")
+            try:
+                float(number)
+            except ValueError:
+                pass
+            else:
+                value = number
+                attrib = {"units": unit}
 
         if key.startswith("MAN_"):
             if key == "MAN_EPOCH_IGNITION":
